@@ -182,6 +182,13 @@ def exitSre (withFrame : Frame) (c : Sre) (s : St) : Compl → St × Compl
       ((s1.through v .sreExit).through v withFrame, .raised v)
     else (s, .ok)
 
+/-- the four fields after `__exit__` (same lines 218-227): only the `force_reraise()` of a normal exit
+    with the flag on touches them; a raising body, or a normal exit with the flag off, leaves the saved
+    type / value / traceback in place, so a later `ctxt.force_reraise()` can still use them -/
+def exitCtx (c : Sre) (s : St) : Compl → Sre
+  | .raised _ => c
+  | .ok => if c.reraise then (force c s).2.1 else c
+
 /-! ### exception_filter -/
 
 /-- a predicate as a finite table: accepted ids, ids on which it raises (and what) -/
@@ -310,6 +317,12 @@ inductive Body
   | filterCall (bound : Bool) (p : Pred) (e : ExcId)    -- filt(E[e])
   | rpoe (rm : RemoveFn) (body : Body)    -- with remove_path_on_error(path, remove=rm): body
   | rwc (explicit : Option (Option ExcId))  -- raise_with_cause(Caused, 'm'[, cause=…])
+  /-- `with save_and_reraise_exception(reraise=…) as ctxt': body` and then, if the `with` statement ended
+      normally, `late` run with `ctxt` naming the *exited* context `ctxt'` -/
+  | nestThen (reraise : Bool) (body late : Body)
+  /-- `try: raise E[e] / except BaseException: with save_and_reraise_exception(reraise=…) as ctxt': body`
+      and then, after the whole `try` statement (nothing being handled any more), `late` on `ctxt'` -/
+  | handleNestThen (e : ExcId) (reraise : Bool) (body late : Body)
   deriving DecidableEq, Repr
 
 structure Res where
@@ -365,6 +378,25 @@ def exec : Body → Sre → St → Res
       | none => s.active
     let (s1, w) := s.raiseFresh .caused cause .rwc
     ⟨s1.through w .scen, c, .raised w⟩
+  | .nestThen fl body late, c, s =>
+    let r := exec body (enter (Sre.init fl) s) s
+    let ex := exitSre .scen r.ctx r.st r.out
+    match ex.2 with
+    | .ok =>
+      let r2 := exec late (exitCtx r.ctx r.st r.out) ex.1
+      ⟨r2.st, c, r2.out⟩
+    | .raised x => ⟨ex.1, c, .raised x⟩
+  | .handleNestThen e fl body late, c, s =>
+    let s1 := s.through e .scen
+    let sh := { s1 with excInfo := e :: s1.excInfo }
+    let r := exec body (enter (Sre.init fl) sh) sh
+    let ex := exitSre .scen r.ctx r.st r.out
+    let s3 := { ex.1 with excInfo := s.excInfo }      -- leaving the `except` block
+    match ex.2 with
+    | .ok =>
+      let r2 := exec late (exitCtx r.ctx r.st r.out) s3
+      ⟨r2.st, c, r2.out⟩
+    | .raised x => ⟨s3, c, .raised x⟩
 
 /-- a whole scenario: `ctxt = save_and_reraise_exception(reraise=flag)` then the body, started
     with no exception being handled -/
@@ -404,6 +436,8 @@ def Body.maxId : Body → Nat
   | .rpoe (.raises e) b => e.max b.maxId
   | .rpoe _ b => b.maxId
   | .rwc (some (some e)) => e
+  | .nestThen _ b l => b.maxId.max l.maxId
+  | .handleNestThen e _ b l => e.max (b.maxId.max l.maxId)
   | _ => 0
 
 end Oslo.Exc
